@@ -257,6 +257,12 @@ pub fn run_worker(args: &Args, tier: &str, seed: u64) -> Report {
                         continue;
                     }
                     let (bytes, label) = ctx.case(&fam, idx);
+                    if lean && bytes.len() > 2048 {
+                        // interpreters: the 64 KiB bodies of the grid cost minutes each and add nothing the native run does not cover
+                        rep.count("skipped_large_in_lean_mode", 1);
+                        idx += nshards;
+                        continue;
+                    }
                     let replay = vec!["c02w".to_string(), "--family".into(), fam.clone(), "--seed".into(), seed.to_string(), "--only".into(), idx.to_string()];
                     if rep.samples.len() < 2 && idx % 1009 == shard % 1009 {
                         rep.sample(J::obj().with("family", fam.as_str()).with("case", idx).with("label", label.as_str()).with("input_hex", hex_short(&bytes, 120)));
